@@ -418,3 +418,14 @@ Proof.
     destruct (IH Hrest st1 addrs st' bss1 Hs1 H T1 ltac:(lia)) as (Hs' & Hb' & Hoff).
     split; [exact Hs'|]. split; [congruence|]. cbn [concat]. rewrite app_length, Nat2Z.inj_add. lia.
 Qed.
+
+(** ** C05 meets C03: in an in-step emission state a branch gets its true displacement *)
+Theorem branch_in_step w m st op t :
+  synced m st -> get_bus w (e_r st) = Ok (a_bus (r_reloc (e_r st))) ->
+  let p := a_val (r_reloc (e_r st)) in
+  in_window m t -> bank_of t = bank_of p -> byte_ok op = true ->
+  rel_emit w (e_r st) op (Some (Ok t)) = branch_bytes op (t - (p + 2)).
+Proof.
+  intros [Hcov Hmask Hrom Hwin Hbank Hoff Hpc] Hbus p Hwt Hb Hop.
+  apply (rel_branch_encode w (e_r st) op t (a_bus (r_reloc (e_r st))) m); auto.
+Qed.
